@@ -7,7 +7,7 @@
    [cur] (generated/C05Cfg.v) is what the checked tree does, read off its source on every run.                     *)
 From GV Require Import Prelude.Base Model.PGroups Model.Removal.
 From GV Require Import Proofs.PGroupsProofs Proofs.RemovalProofs Proofs.RemovalGroups Proofs.RemovalTotal
-                       Proofs.RemovalFile Proofs.RemovalWitness.
+                       Proofs.RemovalFile Proofs.RemovalWitness Proofs.RemovalListing Proofs.RemovalFpg.
 From GVgen Require Import C05Cfg.
 
 (* ------------------------------------------------------------------------------------------------------------------
@@ -155,6 +155,92 @@ Proof. exact removal_total. Qed.
 Print Assumptions C05_survivors_removal_total.
 
 (* ------------------------------------------------------------------------------------------------------------------
+   7. listings and look-ups once the caller has dropped its references (ODrop = forget what is no longer attached +
+      gc.collect()).  [listed w k] is what ws.groups / objects / data / property_groups return (live referents of that
+      registry); OLookup is get_entity(uid) (names are looked up through the same registries).
+      In EVERY state: whatever is not attached to the root is, after ODrop, neither referenced, nor found, nor listed. *)
+Theorem C05_not_attached_not_yielded : forall c w x,
+  attachedb w x = false ->
+  let w1 := fst (step c w ODrop) in
+  ~ In x (held w1)
+  /\ snd (step c w1 (OLookup x)) <> Found
+  /\ forall k k', ~ In x (listed (fst (step c w1 (OList k))) k').
+Proof. exact not_attached_not_yielded. Qed.
+Print Assumptions C05_not_attached_not_yielded.
+
+(* after a completed removal through EITHER entry point, from any reachable state: nothing of the removed subtree is attached *)
+Theorem C05_removed_subtree_unattached : forall c h e a w',
+  let w := run c init h in
+  removal_of e a -> step c w a = (w', Ok) -> forall x, desc w e x -> attachedb w' x = false.
+Proof. exact removed_subtree_unattached. Qed.
+Print Assumptions C05_removed_subtree_unattached.
+
+(* ... hence no listing and no look-up yields it once the references are dropped.  For removal through the parent this is
+   all that holds: the NODES stay in the file (C05_file_exact_via_parent_refuted) until a listing getter of their kind runs
+   after the drop (C05_via_parent_what_remains). *)
+Theorem C05_removed_not_yielded : forall c h e a w',
+  let w := run c init h in
+  removal_of e a -> step c w a = (w', Ok) ->
+  forall x, desc w e x ->
+  let w1 := fst (step c w' ODrop) in
+  ~ In x (held w1)
+  /\ snd (step c w1 (OLookup x)) <> Found
+  /\ forall k k', ~ In x (listed (fst (step c w1 (OList k))) k').
+Proof. exact removed_not_yielded. Qed.
+Print Assumptions C05_removed_not_yielded.
+
+Theorem C05_via_parent_what_remains :
+  forall c, flat (run c init [OObject 0; ORemoveParent 1]) = [0; 1]
+       /\ flat (run c init [OObject 0; ORemoveParent 1; ODrop]) = [0; 1]
+       /\ flat (run c init [OObject 0; ORemoveParent 1; OList KObject]) = [0; 1]
+       /\ flat (run c init [OObject 0; ORemoveParent 1; ODrop; OList KObject]) = [0].
+Proof. exact via_parent_then_drop_and_list. Qed.
+Print Assumptions C05_via_parent_what_remains.
+
+(* ------------------------------------------------------------------------------------------------------------------
+   8. the file side.  Child links: the parent's node no longer links the removed entity (both entry points); with the
+      repaired remove_recursively no node that is still in the file links anything of the removed subtree. *)
+Theorem C05_parent_link_removed : forall c h e a w',
+  let w := run c init h in
+  removal_of e a -> step c w a = (w', Ok) -> ekind (E w e) <> KPG ->
+  memb (par (E w e)) (flat w') = true -> ~ In (par (E w e), e) (links w').
+Proof. exact parent_link_removed. Qed.
+Print Assumptions C05_parent_link_removed.
+
+Theorem C05_visible_links_clean : forall c h e w',
+  snap_ch c = true ->
+  let w := run c init h in
+  step c w (ORemoveWs e) = (w', Ok) -> ekind (E w e) <> KPG ->
+  forall a b, In (a, b) (links w') -> memb a (flat w') = true -> ~ desc w e b.
+Proof. exact visible_links_clean. Qed.
+Print Assumptions C05_visible_links_clean.
+
+(* Property groups: in every reachable state (all histories, every variant) each PropertyGroups block that a raw dump shows
+   is exactly a group its object holds in memory ... *)
+Theorem C05_stored_groups_mirror_memory : forall c h g l,
+  let w := run c init h in
+  In (g, l) (obs_fpg w) -> In (g, l) (pgs (E w (par (E w g)))).
+Proof. exact stored_groups_mirror_memory. Qed.
+Print Assumptions C05_stored_groups_mirror_memory.
+
+(* ... hence after the removal of a data set (either entry point) no stored block of any object lists it: always with the
+   snapshot loop, under the exact side condition no_skip with the pinned loop *)
+Theorem C05_stored_groups_no_dangling : forall c h e a w',
+  let w := run c init h in
+  ekind (E w e) = KData -> removal_of e a -> step c w a = (w', Ok) ->
+  snap_pg c = true \/ no_skip e (pgs (E w (par (E w e)))) = true ->
+  forall g l, In (g, l) (obs_fpg w') -> ~ In e l.
+Proof. exact stored_groups_no_dangling. Qed.
+Print Assumptions C05_stored_groups_no_dangling.
+
+Theorem C05_stored_groups_no_dangling_checked_tree : forall h e a w',
+  let w := run cur init h in
+  ekind (E w e) = KData -> removal_of e a -> step cur w a = (w', Ok) ->
+  forall g l, In (g, l) (obs_fpg w') -> ~ In e l.
+Proof. intros h e a w' w Hk Ha Hs. apply (stored_groups_no_dangling cur h e a w' Hk Ha Hs). left. reflexivity. Qed.
+Print Assumptions C05_stored_groups_no_dangling_checked_tree.
+
+(* ------------------------------------------------------------------------------------------------------------------
    non-vacuity: histories that satisfy the hypotheses above, with the values the theorems talk about                *)
 Example C05_nonvacuous_remove_ws :
   forall c, snd (step c (run c init h_example) (ORemoveWs 1)) = Ok
@@ -171,3 +257,12 @@ Proof. exact example_remove_data. Qed.
 
 Example C05_nonvacuous_witness_lists : grp_ok witness_gs /\ scrub 0 witness_gs = [(2, [0; 7]); (3, [8])].
 Proof. split; [exact witness_ok | exact witness_dangles]. Qed.
+
+Example C05_nonvacuous_listing :
+  forall c, let w' := fst (step c (run c init h_example) (ORemoveWs 2)) in
+  let w1 := fst (step c w' ODrop) in
+  snd (step c (run c init h_example) (ORemoveWs 2)) = Ok
+  /\ snd (step c w' (OLookup 3)) = Found /\ snd (step c w1 (OLookup 3)) = NotFound
+  /\ listed w' KData = [3; 4; 8] /\ listed w1 KData = [8]
+  /\ obs_fpg (run c init h_example) = [(5, [3; 4]); (6, [3])] /\ obs_fpg (fst (step c (run c init h_example) (ORemoveWs 3))) = [(5, [4])].
+Proof. intros [[] [] []]; vm_compute; repeat split; reflexivity. Qed.
